@@ -10,6 +10,7 @@ import shutil
 import tempfile
 
 import numpy as np
+import pandas as pd
 
 from . import common, geo, packfs
 from .common import Check, drive, tok, untok
@@ -32,7 +33,7 @@ def make_frame(r, n, dup, tail_missing=0):
     return GeoDataFrame({"a": list(range(n)), "geometry": geo.make_array("point", pts, "float64"), "ln": geo.make_array("line", lines, "float64")})
 
 
-def run_case(chk, r, root, n, in_parts, npart, mode, comp, prior, dup, tag, tail_missing=0, p=6):
+def run_case(chk, r, root, n, in_parts, npart, mode, comp, prior, dup, tag, tail_missing=0, p=6, filtered_read=False):
     import dask
     import dask.dataframe as dd
     from spatialpandas.io import read_parquet_dask
@@ -48,6 +49,17 @@ def run_case(chk, r, root, n, in_parts, npart, mode, comp, prior, dup, tag, tail
             pn = {"smaller": max(1, npart - 1), "larger": npart + 3}[prior]
             dd.from_pandas(make_frame(r, 3 * pn, False), npartitions=1).pack_partitions_to_parquet(path, filesystem=fs, npartitions=pn, p=6)
         ddf = dd.from_pandas(df, npartitions=in_parts)
+        if filtered_read:
+            # the frame to pack is a row filter of a frame read from a larger dataset (far-away rows are filtered out): what the read
+            # frame knows about its partitions (recorded extents, in use) must not define the curve of the filtered frame
+            from spatialpandas import GeoDataFrame
+            far = GeoDataFrame({"a": [10 ** 6 + i for i in range(4)], "geometry": geo.make_array("point", [[5000 + i, 7000 - i] for i in range(4)], "float64"),
+                                "ln": geo.make_array("line", [[5000, 7000, 5001, 7002]] * 4, "float64")})
+            src = work + "_source.parq"                      # next to, not inside, the directory whose contents are inspected
+            dd.from_pandas(pd.concat([df, far]), npartitions=in_parts + 1).to_parquet(src)
+            rd = read_parquet_dask(src)
+            rd.geometry.partition_bounds; rd.cx[0:10, 0:10].compute()
+            ddf = rd[rd["a"] < 10 ** 6]
         mark_opens, mark_moves, mark_calls = len(fs.opens), len(fs.moves), len(fs.calls)
         tf = packfs.tempdir_format(mode, work)
         for d in ("scratch_u", "scratch_p", "out.parq.scratch_s"):
@@ -152,6 +164,7 @@ def run_case(chk, r, root, n, in_parts, npart, mode, comp, prior, dup, tag, tail
         chk.count("mode:" + mode); chk.count("empty-output-partitions:" + ("yes" if m < npart else "no")); chk.count("prior:" + str(prior))
     finally:
         shutil.rmtree(work, ignore_errors=True)
+        shutil.rmtree(work + "_source.parq", ignore_errors=True)
 
 
 def run_cases(chk, tier):
@@ -181,6 +194,9 @@ def run_cases(chk, tier):
         for npart in (2, 5) if tier == "quick" else (1, 2, 3, 5, 8, 13):
             for dup in (False, True):
                 run_case(chk, r, root, 6 if dup else r.choice((1, 2, 3)), 1, npart, "outside-sibling", "snappy", (None, "larger")[npart % 2], dup, "sibling")
+        # packing a row filter of a frame read from parquet (its partition extents are known and in use)
+        for npart in (2, 3) if tier == "quick" else (1, 2, 3, 5):
+            run_case(chk, r, root, 12, 2, npart, "inside", "snappy", None, False, "filtered-read", filtered_read=True)
         # large curve orders (distances beyond 32 bits): still Hilbert ordered with the right index
         for p_ in (17, 24, 31) if tier == "quick" else (16, 17, 20, 24, 28, 31):
             run_case(chk, r, root, 12, 2, 3, ("inside", "outside-uuid")[p_ % 2], "snappy", None, False, "large-p", p=p_)
